@@ -24,3 +24,12 @@ CHECKS['C20'] = _c('exploration',
     "Trace checking of grant histories: the real limiters inside a real Network are driven under virtual time by 1-4 consumers with seeded gap patterns and run-time limit changes; every window of every history is checked against the exact token-bucket bound (per limiter object, and across changes), an icontract class invariant (0 <= bucket <= limit) runs after every public method, suspension while unlimited and bounded return time (120 virtual s) are monitored; plus two-client transfers with limits observed at send_data/receive_data.",
     "Virtual time; the stall rule is judged only with seeded 0.2-3 ms timer lateness (exactly periodic virtual timers phase-lock the 10 ms polling, which no real clock does); <= 4 consumers.",
     "offline trace checker over recorded grant histories + icontract invariant")
+
+CHECKS['C04'] = _c('fault_enumeration',
+    "Fault-injection monitoring on the simulated network: two real clients (or one real client and a scripted dishonest peer) transfer files of boundary sizes while a fault plan resets / FINs / silently drops the file connection at a chosen file position (systematic grid per size; thorough: every cut point for sizes <= 300, plus thousands of seeded multi-fault plans), inside the ticket and inside the offset. Oracles run on the taps and at listener notifications: whole-file comparison at every COMPLETE, local file a prefix of the source at every edge out of DOWNLOADING, offset on the wire == local size at that instant, delivered payload == source[offset:], uploader COMPLETE only after writing all bytes on an ended connection, and both sides COMPLETE within 2 virtual hours after the last reset.",
+    "Convergence is demanded only for the fault kinds the quantifier names as network breaks (reset); FIN = cancel by the peer; silent loss is judged for corruption only. TCP model: in-order delivery, window, RST/FIN semantics of vf/simnet.py. Disk faults not modelled.",
+    "fault injection at enumerated cut points + conservation / prefix oracles over byte taps")
+CHECKS['C07'] = _c('exploration',
+    "Reference-model monitoring of the real SharesManager on a real temp file system: seeded histories (<= 8 ops) of add/remove/update/scan/rescan/disk mutations/settings reload/cache round trip, ~45 queries per history built from the tree's own words; every query result is compared with a character-scanning reference predicate over a reference ownership index; after every full scan the index is compared with 'walk the disk, innermost owner wins'; stats compared with the index.",
+    "Alphabet restricted to characters whose lower() is 1:1; queries without include/wildcard term are not judged; attribute scanning (mutagen) not covered; trees <= ~30 files.",
+    "differential monitoring against an executable reference model (index + predicate)")
